@@ -517,6 +517,10 @@ def biv_sample_rosenblatt_replay(fam, th, variant='mixed'):
     elif variant == 'large-v':
         v = np.array([0.999, 0.996, 0.99, 0.98, 0.97, 0.95, 0.93, 0.91])
         c = np.array([0.5, 0.9, 0.2, 0.05, 0.7, 0.35, 0.97, 0.6])
+    elif variant.startswith('long'):  # ONE call with more rows than any plausible batch threshold (round 5: a vectorised solver above 2^15 rows)
+        rl = np.random.RandomState(97)
+        n_long = int(variant[4:] or 33001)
+        v, c = rl.uniform(0.002, 0.998, n_long), rl.uniform(0.002, 0.998, n_long)
     draws = [v.copy(), c.copy()]
     o = _biv_new(fam, th)
     orig = np.random.uniform
@@ -550,7 +554,12 @@ def biv_sample_rosenblatt_replay(fam, th, variant='mixed'):
 def biv_sample_rosenblatt(ctx):
     for fam, ths in (('clayton', [0.5, 2.0, 8.0]), ('frank', [-12.0, -2.0, 3.0, 18.0]), ('gumbel', [1.0, 1.5, 3.0])):
         for th in ths:
-          for variant in ('mixed', 'small-v', 'single', 'large-v'):
+          long = ()
+          if (fam, th) == ('frank', 18.0):
+              long = ('long33001',) if ctx.tier == 'quick' else ('long70001',)
+          elif (fam, th) == ('gumbel', 3.0) and ctx.tier != 'quick':
+              long = ('long70001',)
+          for variant in ('mixed', 'small-v', 'single', 'large-v') + long:
             ctx.case(('sample-rosenblatt', fam, th, variant), {'family': fam, 'theta': th, 'draws': f'chosen ({variant}): v in [0.001, 0.999], c in [0.001, 0.999]'})
             try:
                 why = biv_sample_rosenblatt_replay(fam, th, variant)
